@@ -63,7 +63,16 @@ def main():
         shutil.rmtree(scratch, ignore_errors=True)
     head = sh("git rev-parse --short HEAD", cwd=ROOT)[1].strip()
     repo_head = sh("git -C /repo rev-parse --short HEAD")[1].strip()
-    json.dump({"when": time.strftime("%Y-%m-%d %H:%M:%S"), "verif_commit": head, "repo_commit": repo_head, "missed": missed, "results": out}, open(os.path.join(SEEDED, "RERUN.json"), "w"), indent=1)
+    path = os.path.join(SEEDED, "RERUN.json")
+    stamp = {"when": time.strftime("%Y-%m-%d %H:%M:%S"), "verif_commit": head, "repo_commit": repo_head}
+    if sys.argv[1:] and os.path.exists(path):  # partial re-run: merge into the recorded full run, stamping the entries re-run now
+        old = json.load(open(path))
+        for n, r in out.items():
+            old["results"][n] = dict(r, rerun=stamp)
+        old["missed"] = sorted((set(old.get("missed", [])) - set(out)) | set(missed))
+        json.dump(old, open(path, "w"), indent=1)
+    else:
+        json.dump(dict(stamp, missed=missed, results=out), open(path, "w"), indent=1)
     print("missed:", missed)
     return 1 if missed else 0
 
